@@ -1,8 +1,17 @@
 """C10 -- no public call modifies the arrays, tables or models passed to it.
 
-Shape (C): full product  registry entry  x  argument representation  x  data
-condition  (x mask form in the thorough tier).  Every entry is a call recipe of
-``mcphot.ref.registry`` that builds valid arguments from a small scene; every
+Shape (C): full product  registry entry  x  geometry  x  argument representation
+x  data condition  (x mask form in the thorough tier).  Every entry is a call
+recipe of ``mcphot.ref.registry`` that builds valid arguments from a small scene.
+*Geometry* is the shape relation between the image handed to the API and the
+box / cutout / aperture / fit box / segment / kernel the implementation works
+on (whether an intermediate reshape / ravel / slice of the implementation is a
+view of the caller's buffer depends on it): the image is a frame of the scene
+cut so that the 9x9 block around source 0 is strictly inside it (base), is the
+whole image, spans every column, spans every row, is larger than the image, or
+the image has a single row / column; Background2D enumerates its box layouts
+(1..3 x 1..3 whole boxes x with/without partial boxes per axis x pad/crop).
+Every frame contains a pixel of every kind a clean-up branch writes to.  Every
 caller-held object (data, error, mask, background / threshold maps, kernels,
 footprints, position arrays, tables, PSF models, apertures, segmentation
 images, NDData, WCS, parents of views) is snapshotted component-wise before the
@@ -21,21 +30,32 @@ fitter / geometry state objects (not in the property's list).
 """
 import re
 
+import numpy as np
+
 from ..ref import registry as R
 from ..runner import Acc
 
 PROPERTY = 'C10'
 LEVEL = 'exploration'
 RULE = ('full Cartesian product: every registry recipe (one per public entry point / family, generated against the walk of '
-        'every photutils module __all__) x argument representation x data condition (x mask form in the thorough tier); '
+        'every photutils module __all__) x geometry (the recipe\'s own alphabet of image-vs-box/cutout/aperture/segment/kernel '
+        'shape relations, listed under coverage.geometry together with the recipes that have the single geometry "base": those '
+        'without an image argument, isophote fitting (samples the image point-wise), and sky apertures, Background2D[IDW], '
+        'finder-driven / iterative PSF photometry, SourceFinder and ImageDepth, which run the cutout code of a recipe that '
+        'has the axis) x argument representation x data condition (x mask form in the thorough tier); '
         'each recipe executes its calls as steps (constructor / function call, then every public property and every public '
         'method callable without arguments of the returned object) and all caller-held objects are compared with their '
         'snapshot after every step; one evaluation = one executed step; a step is non-trivial when it ran to completion '
         '(did not raise) -- steps that raise are still checked; distinct = distinct (step label, representation, condition, '
-        'mask form)')
+        'mask form, geometry)')
 ASSUMPTIONS = ['numpy / astropy containers report their own state faithfully (tobytes, mask, fill_value, unit)',
                'a cached lazyproperty value appearing in a caller-held photutils object is not a modification',
-               'one scene (41x47, three sources) per condition: a clean-up branch that needs a different scene is not reached',
+               'one scene (41x47, four sources) per condition, handed over whole or as one of the frames of the geometry alphabet '
+               '(each holding source 0 and a pixel of every bad-pixel kind of the condition): a clean-up branch or an aliasing '
+               'that needs another scene or another shape relation (e.g. >3 boxes per axis, strides other than the '
+               'representations listed) is not reached',
+               'geometries that matter only for Fortran-ordered data (registry.GEOMS_THOROUGH_ONLY) are enumerated in the thorough '
+               'tier only, where the Fortran-ordered representation is',
                'plotting members, file loaders, remote data sets are outside the property (listed under coverage.uncovered)']
 
 
@@ -47,16 +67,19 @@ def maskforms(tier):
     return R.MASKFORMS if tier == 'thorough' else R.MASKFORMS[:1]
 
 
+def geoms(r, tier):
+    return tuple(g for g in r.geoms if tier == 'thorough' or g not in R.GEOMS_THOROUGH_ONLY)
+
+
 def combos(r, tier):
     """The (mask form, representation, condition, geometry) product for one
     recipe, simplest first; axes the recipe's arguments do not depend on
-    collapse.  The geometry alphabet is the recipe's own (``r.geoms``), the
-    same in both tiers."""
+    collapse.  The geometry alphabet is the recipe's own (``r.geoms``)."""
     rr = reps(tier) if 'rep' in r.axes else reps(tier)[:1]
     cc = R.CONDITIONS if 'cond' in r.axes else R.CONDITIONS[:1]
     mm = maskforms(tier) if 'cond' in r.axes else R.MASKFORMS[:1]
     out = []
-    for geom in r.geoms:
+    for geom in geoms(r, tier):
         for mf in mm:
             for rep in rr:
                 if rep == 'nddata' and not r.nddata:
@@ -123,6 +146,26 @@ def replay(case, seed):
     return acc
 
 
+def bad_pixels_inside(geom, seed):
+    """Number of pixels of every bad-pixel kind inside the frame of a geometry
+    (measured on the scenes actually handed out)."""
+    out = {}
+    for cond in R.CONDITIONS:
+        c = R.Ctx('ma_masked', cond, seed, geom=geom)
+        sc = {k: (None if v is None else c._cut(v, None)) for k, v in c.sc.items()}
+        if cond == 'nonfinite':
+            out['non-finite data'] = (~np.isfinite(sc['data'])).sum()
+        if cond == 'nonfinite_error':
+            out['non-finite error'] = (~np.isfinite(sc['error'])).sum()
+        if cond == 'negatives':
+            out['negative data'] = (sc['data'] < 0).sum()
+        if cond in ('masked', 'nonfinite'):
+            out[f'mask argument True ({cond})'] = sc['mask'].sum()
+        if cond == 'clean':
+            out['MaskedArray mask True'] = np.ma.getmaskarray(c.data()).sum()
+    return out
+
+
 def describe(tier, seed):
     cov = R.coverage()
     members = {}
@@ -139,8 +182,28 @@ def describe(tier, seed):
             kinds.setdefault(kind, []).append(n)
         members[cls] = {'evaluated': len(kinds.get('property', [])) + len(kinds.get('method0', [])),
                         'not_evaluated': {kk: v for kk, v in kinds.items() if kk not in ('property', 'method0')}}
+    frames = {}
+    for g, region in R.FRAMES.items():
+        c = R.Ctx('ndarray', 'clean', seed, geom=g)
+        frames[g] = {'image_shape': list(c.shape), 'block_bbox_in_image (ixmin, ixmax, iymin, iymax)': list(c.block_bbox()),
+                     'bad_pixels_inside': {k: int(v) for k, v in bad_pixels_inside(g, seed).items()},
+                     'tier': 'thorough' if g in R.GEOMS_THOROUGH_ONLY else 'both'}
+    by_alphabet = {}
+    for r in R.RECIPES.values():
+        gg = geoms(r, tier)
+        if len(gg) > 1:
+            by_alphabet.setdefault(' | '.join(gg) if len(gg) < 12 else f'base + {len(gg) - 1} Background2D box layouts', []).append(r.name)
+    from ..ref import registry_recipes as RR
     return {'alphabet': {'recipes': len(R.RECIPES), 'representations': list(reps(tier)), 'conditions': list(R.CONDITIONS),
-                         'mask_forms': list(maskforms(tier))},
+                         'mask_forms': list(maskforms(tier)),
+                         'geometries': [g for g in R.FRAMES if tier == 'thorough' or g not in R.GEOMS_THOROUGH_ONLY]
+                         + [g for g in list(RR.CUTS) + ['blend'] if g not in R.FRAMES]
+                         + [f'{len(RR.BKG_LAYOUTS)} Background2D box layouts (coverage.geometry)']},
+            'geometry': {'frames': frames, 'single_source_cutouts': {k: [[s.start, s.stop] for s in v] for k, v in RR.CUTS.items()},
+                         'background2d_layouts (image shape, box, edge_method)': {k: [list(v[0]) if not isinstance(v[0], str) else v[0],
+                                                                                     list(v[1]), v[2]] for k, v in RR.BKG_LAYOUTS.items()},
+                         'recipes_by_geometry_alphabet': by_alphabet,
+                         'recipes_with_base_geometry_only': [r.name for r in R.RECIPES.values() if len(r.geoms) == 1]},
             'public_callables': cov['public_callables'],
             'covered': len(cov['covered']),
             'uncovered': cov['uncovered'],
